@@ -42,7 +42,11 @@ class Ctx:
     @property
     def tmp(self):
         if self._tmp is None:
-            self._tmp = tempfile.mkdtemp(prefix="zcverif-%s-" % self.prop)
+            base = None
+            if os.path.isdir("/dev/shm") and os.access("/dev/shm", os.W_OK):
+                base = "/dev/shm"       # tmpfs: file-heavy checks run faster
+            self._tmp = tempfile.mkdtemp(prefix="zcverif-%s-" % self.prop,
+                                         dir=base)
         return self._tmp
 
     def cleanup(self):
